@@ -283,6 +283,7 @@ def run(ctx):
     check_signs(ctx, db)
     # Repetition::transform (C10.5) — same obligations as C11
     C11.check_transform(ctx, db)
+    C11.check_transform_algebra(ctx, db)
     f = db.fn('gdstk::Repetition::transform')
     tables.check_exhaustive(ctx, db, f, C11.RT, frozen_default={('gdstk::Repetition::transform', 0): ['Rectangular', 'Regular', 'Explicit', 'ExplicitX', 'ExplicitY']})
 
